@@ -395,3 +395,58 @@ def run(ctx):
             ctx.undecided('C20.6-derive-module-name', 'module-name', 'calls of the two generators not found in derive_elixir_struct')
     else:
         ctx.info_note('derive macro crate not part of this build')
+
+    # a verdict on a value is worth something only when it looks at the value itself
+    ctx.rule('C20.2-verdict-on-raw-value', 'in the date / time wrappers no validity verdict (a bool-returning function of the module, or a comparison with a constant that decides a try_* / from_term result) is computed '
+             'from a copy produced by one of the normalising constructors (those that clamp a parameter with min / clamp before storing it) or by a conversion built on one: '
+             'the clamp has already forced the field into range, so the test can never fail and out-of-range input is accepted', floor=1)
+    DT = CR + 'date_time::'
+    mod_fns = [q for q, b_ in ctx.F.bodies.items() if q.startswith(DT) and b_['kind'] in ('Fn', 'AssocFn')]
+    norm = set()
+    for q in mod_fns:
+        XB = P.B(q)
+        if any((callee_of(t)[0] or '').endswith('cmp::Ord::min') or (callee_of(t)[0] or '').rsplit('::', 1)[-1] in ('clamp',) for bb, t in XB.calls()) \
+                and DT in XB.b['locals'][0]['ty']:
+            norm.add(q)
+    grew = True
+    while grew:
+        grew = False
+        for q in mod_fns:
+            if q in norm:
+                continue
+            XB = P.B(q)
+            if DT in XB.b['locals'][0]['ty'] and any(n in norm for bb, t in XB.calls() for n in callee_names(t)):
+                norm.add(q)
+                grew = True
+    verdict_fns = {q for q in mod_fns if ctx.F.bodies[q]['locals'][0]['ty'] == 'bool'}
+    n_vr = 0
+    if ctx.anchor(len(norm) >= 1, 'normalising constructors in ' + DT):
+        for q in sorted(q_ for q_ in ctx.F.bodies if q_.startswith(DT)):
+            XB = P.B(q)
+            srcs = [t['dst']['l'] for bb, t in XB.calls() if any(n in norm for n in callee_names(t)) and not t['dst'].get('p')]
+            if not srcs or q.split('::{')[0] in norm:
+                continue
+            der = XB.derived_locals(srcs)
+            hits = [(bb, t) for bb, t in XB.calls() if any(n in verdict_fns for n in callee_names(t)) and any(a.get('k') in ('cp', 'mv') and a['pl']['l'] in der for a in t['args'])]
+            # ... or the verdict function has been spliced in: a comparison of a field of the copy with a constant
+            cmps = []
+            if ctx.F.bodies[q]['locals'][0]['ty'] == 'bool' or 'Option<' in ctx.F.bodies[q]['locals'][0]['ty'] or 'Result<' in ctx.F.bodies[q]['locals'][0]['ty']:
+                for bb, j, st in XB.stmts():
+                    if st['k'] == '=' and st['rv']['k'] == 'bin' and st['rv']['op'] in ('Le', 'Lt', 'Gt', 'Ge'):
+                        a_, b_ = st['rv']['a'], st['rv']['b']
+                        for x_, y_ in ((a_, b_), (b_, a_)):
+                            if y_.get('k') == 'c' and x_.get('k') in ('cp', 'mv') and x_['pl']['l'] in der:
+                                cmps.append((bb, st))
+            if cmps and not hits:
+                n_vr += 1
+                bb, st = cmps[0]
+                ctx.bad('C20.2-verdict-on-raw-value', q.split('date_time::')[1], '%s range-tests a field of a value that came out of a normalising constructor (%s): the clamped field always passes, so input outside the range is accepted'
+                        % (q.split('date_time::')[1], sorted(n.split('date_time::')[1] for n in norm)[:4]), ctx.where(XB, bb), key='SHAPE:%s:verdict-on-normalised-copy' % q.split('::{')[0])
+            if hits:
+                n_vr += 1
+                bb, t = hits[0]
+                ctx.bad('C20.2-verdict-on-raw-value', q.split('date_time::')[1], '%s asks %s about a value that came out of a normalising constructor (%s): the clamped field always passes, so input outside the range is accepted'
+                        % (q.split('date_time::')[1], (callee_of(t)[0] or '').split('date_time::')[-1], sorted(n.split('date_time::')[1] for n in norm)[:4]), ctx.where(XB, bb),
+                        key='SHAPE:%s:verdict-on-normalised-copy' % q.split('::{')[0])
+        if n_vr == 0:
+            ctx.ok('C20.2-verdict-on-raw-value', 'date_time', 'no verdict function is applied to the output of %d normalising constructors / conversions' % len(norm))
